@@ -1,7 +1,7 @@
 (* Props/C18.v — property C18: theorems only (see Props/C01.v for the conventions). The first clause of the property
-   (every Status() snapshot is self-consistent: IsLeader exactly when State is LEADER, a leader shows its own id, State
-   is a documented value) is proved from the table of status writers regenerated from the source on every run
-   (gen/GenStatus.v, machine in Status.v); the rest of the statement (token, revision, convergence of a follower's
+   (every Status() snapshot is self-consistent: IsLeader exactly when State is LEADER, a leader shows its own id and its term
+   token, State is a documented value) is proved from the table of status writers regenerated from the source on every run
+   (gen/GenStatus.v, machine in Status.v); the rest of the statement (revision, convergence of a follower's
    LeaderID, gauge, transition chain) is decided by the monitor on real traces. *)
 From LE Require Import Base Ev World Mon Mon2 Proto Consts GenGuards SimBasics SimOwn SimCallbacks SimTheorems GuardFacts Timing Witness.
 From LE Require Import Locks Status GenStatus StatusInv StatusNow.
@@ -9,9 +9,11 @@ Open Scope Z_scope.
 
 (* Whatever groups of status stores of the current source run, in whatever order and number - they are serialised by
    kvElection.mu, which every one of them holds exclusively (part of the table check) - the three fields satisfy
-   "isLeader = (state = LEADER), a leader's leaderID is its own id, state is a documented value" between any two of them.
+   "isLeader = (state = LEADER), a leader's leaderID is its own id and its token is the one its term was promoted with, state is
+   a documented value" between any two of them.
    [senabled]: a group behind `if e.isLeader.Load() { return }` inside the same exclusive section runs only when the
-   instance does not lead. PARTIAL with respect to the property: token and revision are not in the machine. *)
+   instance does not lead. PARTIAL with respect to the property: the revision is not in the machine (the leader's own refresh
+   stores it outside the lock). *)
 Theorem C18_partial_status_fields_consistent_whenever_the_lock_is_free :
   forall gs, (forall g, In g gs -> In g status_groups) ->
   forall s, SInv s -> senabled s gs ->
